@@ -29,7 +29,7 @@ check(
           "thorough: all n<=4096 plus sampled n up to 2^17) x 8 input classes x {fft complex, fft real, plans (array and "
           "pointer overloads), rfft}; pad/truncate targets; czt over random (n,m,w,a). One evaluation = one transform result "
           "compared with the long-double DFT of the same samples (relative l2 error <= 32*n*eps); non-trivial = input has "
-          "non-zero norm; distinct = hash of (entry point, n, input bits)."),
+          "non-zero norm; distinct = hash of (entry point, n, input bits). Round-6 additions: czt start points exactly on the unit circle and on the axes; padding histories (the same target length from shrinking inputs, fft and rfft)."),
     exhaustive_subspaces={"quick": ["all lengths 1..1024 x 8 input classes x 4 entry points", "pad/truncate targets 1..2n for n<=24"],
                           "thorough": ["all lengths 1..4096 x 8 input classes x 4 entry points", "pad/truncate targets 1..2n for n<=48"]},
     min_distinct={"quick": 20000, "thorough": 100000},
@@ -53,7 +53,7 @@ check(
           "signal whose exact DFT was supplied, odd n must throw; stft->istft for every (window of 11 kinds, overlap, nfft, range, method) "
           "accepted by iscola, on signals whose length is not hop aligned, judged per sample where the accumulated window weight is "
           "non-zero (tolerance 64*eps*log2(nfft)*max|x| amplified by sum|w|^(p-1)/weight; samples whose tolerance would exceed 1e-3*max|x| are counted, not judged), and all samples must be finite; iscola cross-checked against a long-double overlap sum. distinct = hash of "
-          "(entry point, configuration, input bits)."),
+          "(entry point, configuration, input bits). Round-6 additions: structured signals/spectra for ifft (real, real + constant or alternating imaginary part, impulse, constant); a quarter of the stft signals at levels 1e-250..1e250."),
     exhaustive_subspaces={"quick": ["ifft/irfft: all n<=1024", "stft: all overlaps 0..nwin-1 for nwin<=64 x 11 windows x 2 methods x 3 ranges"],
                           "thorough": ["ifft: all n<=8192; irfft: all even n<=8192, all odd n rejected", "stft: all overlaps 0..nwin-1 for nwin<=128 x 11 windows x 2 methods x 3 ranges"]},
     min_distinct={"quick": 20000, "thorough": 150000},
@@ -78,7 +78,7 @@ check(
           "type combination (array/array, array/scalar, scalar/array, compound, aliasing a op= a, a = a op a, unary, copy). One "
           "evaluation = one operator application judged element-wise against the long-double field formula (4*eps*M) with bitwise "
           "operand snapshots; plus mask/index-list selection, concatenation, zeropad and length-mismatch cases. products and quotients additionally per component (4/8 eps times the sum of the magnitudes of that component's two products); non-trivial = "
-          "non-empty arrays; distinct = hash of (combination, operator, length, leading operand bits)."),
+          "non-empty arrays; distinct = hash of (combination, operator, length, leading operand bits). Round-6 additions: every application and every mismatch case is repeated with genuine temporaries (rvalues) on the left, the right and both sides."),
     min_distinct={"quick": 20000, "thorough": 300000},
     technique="runtime monitor: per-operation scalar interpreter in long double complex + bitwise value-semantics snapshots, repeated under ASan/UBSan (thorough: also under valgrind memcheck on the -O2 build)",
     level_text=("Each operator application of the generated programs is compared with the textbook formula evaluated in extended "
@@ -101,7 +101,7 @@ check(
           "copies of slice_t/const_slice_t, const_slice_t(slice_t)) against the Python index list, and writes of scalar / array / "
           "initializer list / foreign strided slice (mutable and const) of every length relation into sentinel-filled arrays; every "
           "pair (dst slice, src slice) of equal count on one array (n<=6 quick + 1/16 sample of n=7,8; n<=8 thorough); random tuples for n up to 1e5. "
-          "Run under ASan+UBSan and plain. non-trivial = valid non-empty slice; distinct = hash of the tuple / pair."),
+          "Run under ASan+UBSan and plain. non-trivial = valid non-empty slice; distinct = hash of the tuple / pair. Round-6 additions: postfix-increment, dereference-and-advance and backward iterator walks; strides INT_MAX, INT_MIN and neighbours on big arrays."),
     exhaustive_subspaces={"quick": ["all (n<=10, i1, i2, step) tuples x {real,complex} x {mutable,const,end}", "all aliasing slice pairs for n<=6"],
                           "thorough": ["all (n<=10, i1, i2, step) tuples x {real,complex} x {mutable,const,end}", "all aliasing slice pairs for n<=8"]},
     min_distinct={"quick": 20000, "thorough": 100000},
@@ -125,7 +125,7 @@ check(
           "empty, slice right-hand sides of every length, wrong-length plan inputs, wrong frame sizes) and includes reuse of the object "
           "after a rejected call; quick runs every variant (templates with more than 400 variants: a seeded sample of 400) plus 1500 random "
           "multi-call programs, thorough up to 20000 variants per template plus 1e5 programs. One evaluation = one forked child of the "
-          "ASan+UBSan NDEBUG build; allowed outcomes: normal return or C++ exception. distinct = (template, variant code)."),
+          "ASan+UBSan NDEBUG build; allowed outcomes: normal return or C++ exception. distinct = (template, variant code). Round-6 additions: two thirds of the cases generate arrays with one NaN or with several non-finite / extreme entries; a wider median-filter template (orders 1..33, 8 input draws)."),
     min_distinct={"quick": 5000, "thorough": 50000},
     min_obs={"quick": {"outcome_returned": 1000, "outcome_threw": 300}, "thorough": {"outcome_returned": 1000, "outcome_threw": 300}},
     technique="runtime monitor: fork-per-case execution under AddressSanitizer+UBSan (NDEBUG, DSPLIB_ASSUME live), exit-status classifier, logical step budget hook, watchdog with re-run; a sample of the same programs under valgrind memcheck on the -O2 build",
@@ -152,7 +152,7 @@ check(
           "pass k<=7) and random heavy-tailed framings of streams up to 1e4 (quick) / 1e5 (thorough) samples, compared with one call on "
           "the whole stream by a fresh instance (equal output counts, |diff| <= 1e-12*scale); interleaved instances vs solo runs; for processors with a granule above one, calls of an inadmissible length are "
           "attempted between frames of the random framings and must be rejected without effect. "
-          "non-trivial = framing with more than one frame; distinct = (configuration, framing)."),
+          "non-trivial = framing with more than one frame; distinct = (configuration, framing). Round-6 additions: streams contain runs of exact zeros and of one constant value; FftFilter mixed overloads (complex taps / real frames and vice versa)."),
     exhaustive_subspaces={"quick": ["all 2^(k-1) framings of k<=9 granules per configuration"],
                           "thorough": ["all 2^(k-1) framings of k<=14 granules per configuration (k<=6 for granules above 500 samples)"]},
     min_distinct={"quick": 30000, "thorough": 1200000},
@@ -175,7 +175,7 @@ check(
           "sum y[i]=sum conj(c[k]) x[i-k] (direct: max(8,m+4)*eps*sum|c||x| per sample; FFT: 64*eps*log2(fftlen)*sum|c|*max|x|), emitted count "
           "floor(len/block)*block and FftFilter == FirFilter on the emitted prefix; xcorr for all (n1,n2) in 1..48^2 (thorough 1..96^2) real and complex plus "
           "sampled pairs to 5000, every lag; MAFilter (n = 1..20 / 1..130 and powers of two to 1000, wide-dynamic-range and burst inputs) vs FirFilter(ones(n)/n) and vs the exact window mean, tolerance scaled by the largest of the last 2n inputs. Every FIR case is also fed as a stream of uneven frames (long, short, empty) against the same sums; half of the xcorr pairs live on independent scales 1e-10..1e10. distinct = hash of "
-          "(configuration, coefficient and input bits)."),
+          "(configuration, coefficient and input bits). Round-6 additions: taps edited through the non-const coeffs() accessor between two calls; xcorr length pairs at every transform-size boundary (lag count 2^k-1..2^k+2, k=5..12)."),
     exhaustive_subspaces={"quick": ["xcorr: all length pairs (n1,n2) in 1..48 x 1..48, real and complex"],
                           "thorough": ["xcorr: all length pairs (n1,n2) in 1..96 x 1..96, real and complex", "every coefficient length 2..1024 x 11 input lengths x real/complex"]},
     min_distinct={"quick": 7000, "thorough": 35000},
@@ -197,7 +197,7 @@ check(
           "explain every output of further inputs (random, impulses, swept tone) under random framings in multiples of M "
           "(|y[i]-v[iM+c]| <= 16*eps*sum|g|*max|x|); output counts len*L/M; non-multiple frames must throw; resample(x,p,q) for every "
           "reduced p,q<=16 (thorough: 24) + audio + non-reduced ratios: no exception, length p'*ceil(len/q'), identity for p=q, LS-fitted alignment "
-          "|tau|<=1 output sample and residual <= 1% for 1..3 tones. distinct = (configuration, input bits)."),
+          "|tau|<=1 output sample and residual <= 1% for 1..3 tones. distinct = (configuration, input bits). Round-6 additions: twelve default-designed converters of different rates built one after another in every shard process."),
     exhaustive_subspaces={"quick": ["all reduced ratios L/M with L,M in 1..16 (159) + 8 audio ratios"], "thorough": ["all reduced ratios L/M with L,M in 1..16 (159) + 8 audio ratios"]},
     min_distinct={"quick": 2000, "thorough": 4000},
     min_obs={"quick": {"resample_accuracy_cases": 200, "non_multiple_frames": 300}, "thorough": {"resample_accuracy_cases": 400, "non_multiple_frames": 300}},
@@ -280,7 +280,7 @@ check(
           "the magnitude response on a long-double grid (1024 quick / 4096 thorough points) inside the masks (pass 1+-0.02, stop <= 0.02, "
           "transition half-width 4/(n+1)); windows hann/hamming/blackman/blackmanharris/cosine/gauss/tukey/kaiser for every length 3..512 "
           "(plus sampled to 1e5) and parameters gauss alpha in [0.5,6], tukey r in [-0.5,1.5], kaiser beta in [0,40]: closed form in long "
-          "double (1e-12), range [0,1], symmetry, periodic(n) == first n of symmetric(n+1). custom windows include asymmetric tapers (random, periodic hann/hamming), for which the response must still be symmetric. distinct = (function, parameters)."),
+          "double (1e-12), range [0,1], symmetry, periodic(n) == first n of symmetric(n+1). custom windows include asymmetric tapers (random, periodic hann/hamming), for which the response must still be symmetric. distinct = (function, parameters). Round-6 additions: fir1 design histories (same order and cut-off with seven windows in random order) compared bit for bit with the same call in a fresh thread; window lengths 32767..65538 and 1e5."),
     exhaustive_subspaces={"quick": ["all fir1 orders 2..256", "all window lengths 3..512"], "thorough": ["all fir1 orders 2..256", "all window lengths 3..512"]},
     min_distinct={"quick": 20000, "thorough": 30000},
     min_obs={"quick": {"mask_checks": 300, "wrong_window_length_cases": 1000}, "thorough": {"mask_checks": 3000, "wrong_window_length_cases": 1000}},
@@ -302,7 +302,7 @@ check(
           "while locked, coefficient trajectory within 1e-7 of a long-double reference recursion; the same stream in random frames must give "
           "the same y/e; locked filter == fixed FIR with coeffs(); noise-free convergence of NLMS (after ceil(60L/(mu(2-mu))) samples) and RLS "
           "(40L+200, extended until the initial regularisation lambda^N/load has decayed below 3e-4 of the data term) to misalignment < 1e-6; real RLS after N<=200 samples vs the long-double solution of the "
-          "exponentially weighted, diagonally regularised normal equations. distinct = (configuration, input bits)."),
+          "exponentially weighted, diagonally regularised normal equations. distinct = (configuration, input bits). Round-6 additions: NLMS at input levels 1e-7..1e3, systems with a bulk delay and noise-free desired signals (exactly zero first errors), leading silence."),
     min_distinct={"quick": 6000, "thorough": 400000},
     min_obs={"quick": {"locked_samples": 50000, "adapting_samples": 200000, "convergence_runs": 600, "rls_batch_runs": 300},
              "thorough": {"locked_samples": 3000000, "adapting_samples": 12000000, "convergence_runs": 40000, "rls_batch_runs": 20000}},
@@ -326,7 +326,7 @@ check(
           "A^2 (complex) / A^2/2 (real, within the window's own mirror leakage 4|W(2w0)|/|W(0)| + 1e-9); tones on a grid 8x finer than the "
           "bin spacing: f[argmax] must be the listed frequency nearest the tone; mscohere in [0,1], == 1 for scaled copies, and equal to a "
           "long-double reference coherence for filtered copies and independent noise; short overloads == explicit calls. "
-          "distinct = (configuration, signal bits)."),
+          "distinct = (configuration, signal bits). Round-6 additions: custom windows (flat-top with negative taps, tukey, scaled hann) and call histories with windows of equal length and end taps."),
     min_distinct={"quick": 10000, "thorough": 300000},
     min_obs={"quick": {"label_checks_complex": 600, "label_checks_real": 300, "density_sum_checks": 300, "mscohere_checks": 200},
              "thorough": {"label_checks_complex": 2400, "label_checks_real": 1200, "density_sum_checks": 1200, "mscohere_checks": 800}},
@@ -348,7 +348,7 @@ check(
           "{.005,.01,.02,.05,.1}: real part == input delayed by M/2 exactly under random framing, imaginary part == 90-degree shifted tone "
           "within 1e-3*A for tones at the guard frequency max(2tw,6/M), at 0.5-guard and random in between; Tuner for fs in {8,...,65537,96000,1e5,192000,1e6}, "
           "integer / half-integer / random fractional / band-edge f, streams of 3..9*fs samples in random frames: every sample == "
-          "x[k]*exp(2*pi*i*f*k/fs) with the phase reduced exactly in long double. distinct = (configuration, input bits)."),
+          "x[k]*exp(2*pi*i*f*k/fs) with the phase reduced exactly in long double. distinct = (configuration, input bits). Round-6 additions: a quarter of the hilbert inputs at levels 1e-250..1e250; tuner frequencies 1e-9..1e-4 away from an integer."),
     min_distinct={"quick": 2500, "thorough": 20000},
     min_obs={"quick": {"hilbert_filter_tones": 200, "tuner_streams_fractional_f": 10, "tuner_streams_integer_f": 5},
              "thorough": {"hilbert_filter_tones": 700, "tuner_streams_fractional_f": 20, "tuner_streams_integer_f": 10}},
@@ -368,7 +368,7 @@ check(
           "squares and products of two primes near 2^16, and 2e4 (quick) / 1e6 (thorough) random 32-bit arguments against deterministic "
           "Miller-Rabin; primes(n) for all n<=600 and sampled n to 2^19 / 2^22 against the sieve prefix; nextpow2/ispow2 within 256 / 4096 of "
           "every 2^k, k<=30, and INT_MAX. Every call runs under a logical step budget on the DSPLIB_VERIF counter (isprime/factor: "
-          "32*(sqrt(n)+64); nextprime: that times (gap+1); primes: 32*(pi(n)+1)*(sqrt(n)+64)). 48/400 seeded call histories mix repeated, decreasing, prime and tiny arguments over primes/isprime/factor/nextprime (answers must not depend on earlier calls). distinct = (function, argument)."),
+          "32*(sqrt(n)+64); nextprime: that times (gap+1); primes: 32*(pi(n)+1)*(sqrt(n)+64)). 48/400 seeded call histories mix repeated, decreasing, prime and tiny arguments over primes/isprime/factor/nextprime (answers must not depend on earlier calls). distinct = (function, argument). Round-6 additions: every maximal prime gap and every gap above 292 below 2^32 walked through nextprime/isprime; thorough: isprime for every argument in [2^22, 2^24) against a segmented sieve."),
     exhaustive_subspaces={"quick": ["all n in [0, 2^20] for isprime/factor/nextprime/nextpow2/ispow2"], "thorough": ["all n in [0, 2^22] for isprime/factor/nextprime/nextpow2/ispow2"]},
     min_distinct={"quick": 3000000, "thorough": 15000000},
     technique="runtime monitor: sieve / Miller-Rabin oracle over exhaustive and boundary arguments, logical step-budget hook as termination oracle; thorough: the quick workload repeated on the ASan+UBSan build",
@@ -390,7 +390,7 @@ check(
           "over streams of 2500 / 30000 samples in random frames, compared exactly with a brute-force window median; corr Pearson / Spearman / "
           "Kendall for all permutations of length <= 7 (thorough: 8; pairs listed in both orders) and random Gaussian pairs to n = 2000 against O(n^2) long-double definitions, "
           "symmetry, range [-1,1], and +-1 for strictly monotone (rank) / linear (Pearson) relations given in random order. "
-          "distinct = (function, configuration, input bits)."),
+          "distinct = (function, configuration, input bits). Round-6 additions: medfilt on every (order 3..64, length 1..80, three sign patterns); Gaussian pairs repeated on independent scales 1e-60..1e60."),
     exhaustive_subspaces={"quick": ["all permutations of length <= 7 for the three correlation coefficients", "all median filter orders 3..64"],
                           "thorough": ["all permutations of length <= 8 for the three correlation coefficients", "all median filter orders 3..160", "all sort/median lengths 1..4000 x 6 content kinds"]},
     min_distinct={"quick": 25000, "thorough": 300000},
@@ -414,7 +414,7 @@ check(
           "real axis with +0/-0 imaginary part, integer and fractional exponents in [-8,8], lengths 1..1000, compared with the long-double "
           "value of the definition (tolerance k*eps*scale); shape functions exhaustively for n<=12 (all factors/phases/shifts), linspace "
           "n=1..100, the integer arange cube [-12,12]^3 and fractional aranges with integral count; inverse pairs round-trip. "
-          "distinct = (function, argument bits)."),
+          "distinct = (function, argument bits). Round-6 additions: one reduction block in ten is degenerate (all elements zero with either sign, or all equal); arrays with tied extrema."),
     exhaustive_subspaces={"quick": ["upsample/downsample/repelem/delayseq/zeropad/flip for every n<=12, factor, phase, shift", "linspace n=1..100"],
                           "thorough": ["upsample/downsample/repelem/delayseq/zeropad/flip for every n<=12, factor, phase, shift", "linspace n=1..100", "integer arange for every start, stop, step in [-12,12]"]},
     min_distinct={"quick": 2500000, "thorough": 80000000},
@@ -439,7 +439,7 @@ check(
           "(quick: a seeded stride of F/24), amplitudes -70..+20 dB, noise 30..60 dB below, thresholds 0.3..0.9, and preamble-free streams: "
           "the first report is judged against a long-double normalised matched-filter statistic (frame and offset of the first sample above "
           "1.07*thr, bitwise aligned preamble samples, score >= 0.97 at the true end; silence when the statistic stays below 0.93*thr; "
-          "streams entering the band first are skipped and counted). In half of the detector streams a call with a wrong frame length is made before the preamble completes; it must throw and change nothing. distinct = (configuration, signal bits)."),
+          "streams entering the band first are skipped and counted). In half of the detector streams a call with a wrong frame length is made before the preamble completes; it must throw and change nothing. distinct = (configuration, signal bits). Round-6 additions: a third of the detector streams are fed several frames per call; finddelay call histories (long/loud then short/quiet pairs of equal transform size)."),
     min_distinct={"quick": 7000, "thorough": 300000},
     min_obs={"quick": {"delay_cases": 500, "detections_at_true_preamble_end": 100, "detector_streams_expecting_silence": 10},
              "thorough": {"delay_cases": 1000, "detections_at_true_preamble_end": 1000, "detector_streams_expecting_silence": 100}},
@@ -462,7 +462,7 @@ check(
           "-10..-40 dBc, >= 100 bins apart, lengths 2048..2^17 incl. non powers of two, amplitudes over 80 dB: thd within 0.1 dB, component "
           "frequencies within 0.1 bin, harmonic levels within 0.1 dB, sinad within 1.5 dB, thd/sinad/snr scale invariant within 1e-3 dB; "
           "rng(seed) for seeds 0..20000 (quick: every 7th of 0..3000): an interleaved rand/randn/randi/awgn script replays bitwise and every bounded draw "
-          "stays inside its inclusive bounds. distinct = (configuration, signal bits)."),
+          "stays inside its inclusive bounds. distinct = (configuration, signal bits). Round-6 additions: thd with aliased = true for fundamentals at 0.26..0.47 fs whose harmonics fold from beyond Nyquist (up to beyond 2 fs), folded components 110 bins apart."),
     min_distinct={"quick": 700, "thorough": 20000},
     min_obs={"quick": {"awgn_cases_real": 25, "awgn_cases_complex": 25, "thd_cases": 50, "replayed_scripts": 100},
              "thorough": {"awgn_cases_real": 100, "awgn_cases_complex": 100, "thd_cases": 250, "replayed_scripts": 1000}},
@@ -485,7 +485,7 @@ check(
           "NoiseGate: gain in [0,1], |out| <= |in|, zero-attack Limiter never above its threshold; level steps: smoothed gain monotone with "
           "10-90% time == configured attack/release time (+-2 samples +-1%); Agc with targets 0.01..100, inputs over 80 dB, averaging "
           "lengths 1..1000, real and complex constant-envelope inputs in random frames: settled output power within 1% of the target when "
-          "the needed gain is below max_gain, gain never above max_gain. distinct = (configuration, signal bits)."),
+          "the needed gain is below max_gain, gain never above max_gain. distinct = (configuration, signal bits). Round-6 additions: weak AGC inputs (-100..-62 dBFS) with reachable targets; two differently configured Compressors / Limiters fed the same blocks alternately, each judged by its own static curve."),
     min_distinct={"quick": 3500, "thorough": 70000},
     min_obs={"quick": {"static_levels_judged": 100000, "timing_measurements": 150, "agc_runs_inside_gain_range": 20, "limiter_ceiling_samples": 1000000},
              "thorough": {"static_levels_judged": 1000000, "timing_measurements": 800, "agc_runs_inside_gain_range": 100, "limiter_ceiling_samples": 10000000}},
